@@ -53,6 +53,9 @@ class GridDriver:
         with: text stays text (sources of kind "mixlist" supply str(n) for odd cells), numbers stay numbers."""
         try:
             want_text = getattr(self, "reps", {}).get(name) == "mix" and i % 2 == 1
+            if getattr(self, "reps", {}).get(name) == "bool0":
+                # supplied as the bool False (trace value k): must come back as a bool that is false
+                return self.kof.get(name, 0) if (isinstance(v, (bool, np.bool_)) and not v) else -99994
             if getattr(self, "reps", {}).get(name) == "f":
                 # supplied as the double n + 0.1: must come back as exactly that double
                 x = float(v)
@@ -135,8 +138,13 @@ class GridDriver:
             # the SAME component object for every query of this world, moved to the queried cell (like an agent's
             # position component after move / move_to); every third query uses a fresh object instead
             self.nq = getattr(self, "nq", 0) + 1
-            if self.nq % 3 == 0:
+            if self.nq % 6 == 0:
                 return PositionComponent(None, None, c[0] + off, c[1] + off, c[2] + off)
+            if self.nq % 6 == 3:
+                # the component of an agent that is not (or no longer) in this world keeps its coordinates
+                from ECAgent.Core import Agent
+                ghost = Agent("ghost", self.world.model)
+                return PositionComponent(ghost, self.world.model, c[0] + off, c[1] + off, c[2] + off)
             if getattr(self, "_pc", None) is None:
                 self._pc = PositionComponent(None, None, 0, 0, 0)
             self._pc.x, self._pc.y, self._pc.z = c[0] + off, c[1] + off, c[2] + off
@@ -168,6 +176,12 @@ class GridDriver:
             except Exception:  # noqa: BLE001
                 return [-9]
 
+        self.nneigh = getattr(self, "nneigh", 0) + 1
+        if self.nneigh % 4 == 0:
+            try:
+                fn(tuple(c), r, inc, str)          # an unsupported return type: rejected (TypeError), and forgotten
+            except Exception:  # noqa: BLE001
+                pass
         tups = [tup(lambda: fn(cid, r, inc, tuple)), tup(lambda: fn(tuple(c), r, inc, tuple)),
                 tup(lambda: fn(pc(0.0), r, inc, tuple)), tup(lambda: fn(pc(0.25), r, inc, tuple)),
                 tup(lambda: fn(pc(0.75), r, inc, tuple)), tup(lambda: fn(pc(0.9999999), r, inc, tuple)),
@@ -207,11 +221,15 @@ class GridDriver:
         elif kind == "bigcall":
             # a generator whose arithmetic passes through numbers far beyond 64 bits (coordinates are plain integers)
             gen = lambda pos, cells: ((100 * pos[0] + 10 * pos[1] + pos[2] + k) * 10 ** 19 + 7) // 10 ** 19  # noqa: E731
+        elif kind == "fconst":
+            # a constant that is falsy (the flag False): every cell holds exactly that value
+            gen = ConstantGenerator(False)
         elif kind == "tconst3":
             # a list-like constant (an RGB triple) whose length has nothing to do with the number of cells
             gen = ConstantGenerator((k, k + 1, k + 2))
         elif kind == "halve":
-            if name not in w.cells.columns or not all(isinstance(v, (int, np.integer)) for v in w.cells[name]):
+            if name not in w.cells.columns or getattr(self, "reps", {}).get(name) is not None \
+                    or not all(isinstance(v, (int, np.integer)) and not isinstance(v, (bool, np.bool_)) for v in w.cells[name]):
                 return
             # the generator reads the component's CURRENT value of the cell it is asked for
             ids = {tuple(p): i for i, p in enumerate(w.cells["pos"])}
@@ -276,9 +294,11 @@ class GridDriver:
         except Exception as e:  # noqa: BLE001
             exc = e
         if exc is None:
+            self.kof = getattr(self, "kof", {})
+            self.kof[name] = k
             self.reps = getattr(self, "reps", {})
-            self.reps[name] = {"mixlist": "mix", "farray": "f"}.get(kind)
-        self.events.append({"op": "add_cell_component", "name": name, "kind": {"roarray": "array", "farray": "array", "tconst": "constant", "tconst3": "constant", "bigcall": "callable", "mixlist": "list", "tuplist": "list"}.get(kind, kind), "k": k, "vals": vals, "dims": self.dims,
+            self.reps[name] = {"mixlist": "mix", "farray": "f", "fconst": "bool0"}.get(kind)
+        self.events.append({"op": "add_cell_component", "name": name, "kind": {"roarray": "array", "farray": "array", "tconst": "constant", "tconst3": "constant", "fconst": "constant", "bigcall": "callable", "mixlist": "list", "tuplist": "list"}.get(kind, kind), "k": k, "vals": vals, "dims": self.dims,
                             "out": outcome(exc), "cols": self.cols()})
 
     def op_mutate(self, name):
@@ -341,7 +361,10 @@ def c09_programs(max_ext):
             # the row must be the cell's CURRENT row: look every cell up again after components were removed / replaced
             prog += [["remove", "p"]] + [["get_cell", c] for c in cells(s)]
             # a layer built from an array the caller keeps using as a scratch buffer
-            prog += [["add", "a", "array", 2], ["mutate", "a"]] + [["get_cell", c] for c in cells(s)]
+            prog += [["add", "a", ("array", "farray")[len(out) % 2], 2], ["mutate", "a"]] + [["get_cell", c] for c in cells(s)]
+            if cls == "discrete":
+                # two layers from one lookup generator whose table is replaced in between
+                prog += [["add", "l1", "lookup", 1], ["add", "l2", "lookup", 3]] + [["get_cell", c] for c in cells(s)]
             prog += [["add", "q", ("constant", "tconst", "tconst3")[len(out) % 3], 8], ["add", "r", "callable", 1]] + [["get_cell", c] for c in cells(s)]
             prog += [["remove", "q"], ["remove", "nope"]] + [["get_cell", c] for c in cells(s)]
             prog += [["add", "r", "halve", 0]] + [["get_cell", c] for c in cells(s)]
@@ -377,7 +400,7 @@ def c11_random_program(rng, max_ext=3, length=10):
     for _ in range(length):
         r = rng.random()
         if r < 0.55:
-            prog.append(["add", rng.choice(names), rng.choice(["callable", "callable", "bigcall", "constant", "tconst", "tconst3", "list", "mixlist", "tuplist", "array", "farray", "roarray", "lookup", "lookup", "halve", "halve"]), rng.choice([0, 3, 5, -4])])
+            prog.append(["add", rng.choice(names), rng.choice(["callable", "callable", "bigcall", "constant", "fconst", "tconst", "tconst3", "list", "mixlist", "tuplist", "array", "farray", "roarray", "lookup", "lookup", "halve", "halve"]), rng.choice([0, 3, 5, -4])])
         elif r < 0.7:
             prog.append(["mutate", rng.choice(names)])
         elif r < 0.9:
